@@ -34,7 +34,7 @@ ASSUMPTIONS = [
     "CR-only line ends are used for files only (text-mode universal newlines); strings are given LF or CRLF",
 ]
 REQUIRED = ["channel_reads_compared", "channel_str_path", "channel_Path", "channel_file_object", "channel_StringIO", "channel_string",
-            "codec_utf-8-sig", "codec_utf-8", "codec_utf-16", "codec_utf-16-le", "codec_utf-16-be", "codec_latin-1", "codec_cp1252",
+            "channel_cases_multibyte_char_at_window_boundary", "codec_utf-8-sig", "codec_utf-8", "codec_utf-16", "codec_utf-16-le", "codec_utf-16-be", "codec_latin-1", "codec_cp1252",
             "eol_CR", "eol_CRLF", "channel_cases_indented_titles", "history_reads_compared", "rereads_after_mutation", "quiescent_state_checks", "unmutated_object_checks"]
 SOFT_DEADLINE = {"quick": 100, "thorough": 1500}
 LEVEL_TEXT = ("Exploration: (a) full product of channels x stored forms x line ends per generated text, (b) history checking with a "
@@ -63,8 +63,29 @@ def make_text(rep, seed):
     return lastext.render({"sections": secs}, {"sep": "  ", "lead": " "})
 
 
+def pad_to_offset(text, codec, eol, target):
+    first, rest = text.split("\n", 1)
+    n = 10
+    for _ in range(6):
+        cand = first + "\n#" + "p" * n + "\n" + rest
+        idx = next(i for i, ch in enumerate(cand) if ord(ch) > 127)
+        b = len(cand[:idx].replace("\n", eol).encode(codec))
+        if b == target:
+            return cand
+        per = len("p".encode(codec.replace("utf-16", "utf-16-le") if codec == "utf-16" else codec))
+        n += (target - b) // per
+        if n < 0:
+            return text
+    return cand
+
+
 def grid(tier):
     k = 0
+    for W in (1024, 2048, 4000, 4096, 8192):
+        for back in (1, 2, 3):
+            for rep, codec in (("latin", "utf-8"), ("cp1252", "utf-8"), ("wide", "utf-8"), ("wide", "utf-16"), ("latin", "utf-8-sig"), ("wide", "utf-16-le")):
+                k += 1
+                yield {"kind": "channels", "rep": rep, "codec": codec, "eol": ["LF", "CRLF"][k % 2], "seed": 3 * k, "straddle": W - back}
     for rep in REPERTOIRES:
         for codec in REPERTOIRES[rep][3]:
             for eol in EOLS:
@@ -81,7 +102,10 @@ def n_random(tier):
 def random_case(rng, tier):
     if rng.random() < 0.3:
         rep = rng.choice(list(REPERTOIRES))
-        return {"kind": "channels", "rep": rep, "codec": rng.choice(REPERTOIRES[rep][3]), "eol": rng.choice(list(EOLS)), "seed": rng.randrange(10 ** 6)}
+        c = {"kind": "channels", "rep": rep, "codec": rng.choice(REPERTOIRES[rep][3]), "eol": rng.choice(list(EOLS)), "seed": rng.randrange(10 ** 6)}
+        if rng.random() < 0.3:
+            c["straddle"] = rng.choice([512, 1000, 1024, 2048, 4000, 4096, 8000, 8192, 16384]) - rng.randint(0, 3)
+        return c
     return {"kind": "history", "seed": rng.randrange(10 ** 9), "length": rng.randint(5, 40)}
 
 
@@ -101,6 +125,11 @@ def run_channels(case, ctx):
         ind = " " * (1 + 2 * (case["seed"] % 2))
         text = "\n".join((ind + ln) if ln.startswith("~") else ln for ln in text.split("\n"))
         ctx.count("channel_cases_indented_titles")
+    if case.get("straddle"):
+        # a comment line sized so that the first non-ASCII character of the header starts at a given byte offset of the
+        # stored file (just before a power-of-two / 4000-byte boundary: any fixed-size sniffing window would cut it in two)
+        text = pad_to_offset(text, codec, EOLS[case["eol"]], case["straddle"])
+        ctx.count("channel_cases_multibyte_char_at_window_boundary")
     comp, unit, descr, _ = REPERTOIRES[rep]
     ref = lasio.read(io.StringIO(text))
     ref_snap = canon.clas(ref)
